@@ -168,6 +168,10 @@ func sectionViolations(fs []hf, k kind, limit int) []string {
 			}
 			if f.Value != "" {
 				pseudoEarlierNonEmpty[f.Name] = true
+			} else if known {
+				// RFC 9114 4.3.1: "contains invalid values for those pseudo-header fields is malformed";
+				// no pseudo-header field has a valid empty value
+				add("pseudo-empty-value")
 			}
 			continue
 		}
@@ -282,7 +286,7 @@ var reasonPrefixes = []struct {
 	{"contradicting content lengths", 10}, {"invalid content length", 11}, {"http3: received pseudo header in trailer", 12},
 	{"invalid trailer field name", 13}, {"extended CONNECT:", 14}, {":path must be empty and :authority", 15},
 	{":path, :authority and :method must not be empty", 16}, {":protocol must be empty", 17},
-	{"missing :status field", 18}, {"invalid status code", 19}, {"parse ", 20},
+	{"missing :status field", 18}, {"invalid status code", 19}, {"parse ", 20}, {"empty pseudo header", 21}, {":scheme must be empty", 22},
 }
 
 // reasonCode maps the error text to a small enum; 0 = not recognised (the model treats 0 as a
